@@ -1,14 +1,25 @@
 """C12 — AutoDecoder picks a decoder that accepts the message, across any history."""
-from props import hdlc_model as M, auto_model as AM
+from props import hdlc_model as M, auto_model as AM, cosem_model as CM, p1text_model as PT
+from pyvc import run
 
 def build(repo, tier, seed):
-    r = M.groups_result([("autodecoder", AM.group_auto, (repo,))])
-    r.functions = [AM.A + x for x in (".__init__", ".previous_success_decoder", ".decode_message_payload", ".decode_message")]
+    r = M.groups_result([("autodecoder", AM.group_auto, (repo,)), ("genuine lists are refused by the other meters' decoders", CM.genuine_group, (repo,)), ("p1text", PT.group_p1text, (repo,))],
+                        select=lambda oid: "AutoDecoder" in oid or "refuses" in oid or "readout_content" in oid)
+    r.functions = [AM.A + x for x in (".__init__", ".previous_success_decoder", ".decode_message_payload", ".decode_message")] + sorted({o.func for o in r.obligations if o.func and "refuses" in o.oid}) + \
+                  ["han.dlde.decode_p1_readout_content", "han.dlde.parse_p1_readout_content"]
     r.assumptions = ["each decoder is a function of the payload with outcome in {returns a dictionary, ConstructError, ValueError} (other exceptions are excluded by C15's obligations on the decoders)",
-                     "message.payload is side-effect free; isinstance(message, DataReadout) decides the P1 branch"]
-    r.not_decided = ["'a genuine Aidon/Kaifa/Kamstrup/P1 message is decoded by that meter's own decoder' needs rejection lemmas through the construct grammars of the other decoders: not decided here (see C07-C11 for the decoders themselves)"]
-    r.explanation = ("C12: per-call contract of decode_message_payload and decode_message from the real source with the decoder table read from the source (loop unrolled over its entries, symbolic remembered index): "
+                     "message.payload is side-effect free; isinstance(message, DataReadout) decides the P1 branch",
+                     "rejection lemmas: construct 2.10.70 combinator semantics as in C07-C09 (every model is replayed through the real decoder); layouts have a fixed structure with symbolic values",
+                     "the P1 text decoder on a binary list: decode_p1_readout_content returns only for text without control octets (clause proved on the real function in the p1text group); every documented list starts with the "
+                     "array / structure tag 0x01 / 0x02 (checked per layout), so it is refused - combining the two is a one-step argument made here, the bounded search genuine_fresh cross-checks it on the real code"]
+    r.not_decided = ["genuine P1 text given to the three frame decoders that precede the 'P1' entry is not examined symbolically (a data block starts with a printable character, the LLC header constant is 0xE6 0xE7 0x00); "
+                     "the bounded run of C11 (AutoDecoder agreement on generated blocks) covers it on the real code"]
+    r.explanation = ("C12: (1) per-call contract of decode_message_payload and decode_message from the real source with the decoder table read from the source (loop unrolled over its entries, symbolic remembered index): "
                      "None exactly when every decoder rejects; otherwise the dictionary of the first accepting decoder in cyclic order from the remembered one, hence the remembered one whenever it accepts; "
                      "previous_success_decoder names it, unchanged when nobody accepts; decode_message agrees with decode_message_payload(message.payload) (P1 readouts are decoded whole by the 'P1' entry); "
-                     "the class invariant (index in range) makes the contract hold after every history.")
+                     "the class invariant (index in range) makes the contract hold after every history. (2) Genuine messages: for each of the documented Aidon / Kaifa / Kamstrup lists (frame and bare body, values symbolic) every "
+                     "binary decoder that a fresh AutoDecoder tries before the list's own decoder is executed symbolically through the grammar layer and shown to end in ConstructError / ValueError on every path (103 list x decoder "
+                     "pairs); with (1) and the decoders' own contracts (C07-C09) a fresh AutoDecoder, and one that remembers the same meter and form, returns the own decoder's dictionary.")
+    b = run.rt_call("C12", "genuine_fresh", {"seed": seed, "n": 40 if tier == "quick" else 1500})
+    r.bounded.append(b if "name" in b else {"name": "genuine_fresh", "error": b.get("error", b)})
     return r
